@@ -63,6 +63,49 @@ def split_event(rng, gd):
     return uniq[:k], uniq[k:k + 2], cls
 
 
+def planted_three_worlds(rng, gd):
+    """Three distinct worlds in one query, and a confounded pair U <-> V whose two ends sit in two of them: outcomes
+    [U_a, K_a'] given [V_b] (the cross-world copy of the confounding edge decides whether rule 2 may exchange V_b).
+    -> (graph with the edge planted, outcomes, conditions) or None"""
+    nodes = sorted(gd["nodes"])
+    if len(nodes) < 4:
+        return None
+    u, v, a, b = rng.sample(nodes, 4)
+    bi = [list(e) for e in gd["bi"]]
+    if [u, v] not in bi and [v, u] not in bi:
+        bi.append([u, v])
+    g2 = {"nodes": list(gd["nodes"]), "di": [list(e) for e in gd["di"]], "bi": bi, "hostile": "planted-three-worlds"}
+    k = rng.choice([x for x in nodes if x not in (a,)])
+    sa = rng.random() < 0.5
+    out = [[u, [[a, sa]], rng.random() < 0.5]]
+    third = [[a, not sa]] if rng.random() < 0.5 else [[a, sa], [b, rng.random() < 0.5]]
+    if (k, tuple(map(tuple, third))) != (u, tuple(map(tuple, out[0][1]))):
+        out.append([k, third, rng.random() < 0.5])
+    cond = [[v, [[b, rng.random() < 0.5]], rng.random() < 0.5]]
+    keys = {(c[0], tuple(map(tuple, c[1]))) for c in cond}
+    out = [c for c in out if (c[0], tuple(map(tuple, c[1]))) not in keys]
+    return (g2, out, cond) if out else None
+
+
+def planted_three_relevant_worlds(rng):
+    """a -> u, b -> v, j -> k, u <-> v (six nodes, names shuffled), query [u_a, k_j | v_b]: three worlds that each
+    matter for one variable only; the confounded pair sits in two of them."""
+    nm = gg.names(6, rng, unsorted=rng.random() < 0.3)
+    rng.shuffle(nm)
+    a, u, b, v, j, k = nm
+    di = [[a, u], [b, v], [j, k]]
+    if rng.random() < 0.3:
+        di.append(rng.choice([[a, v], [b, u], [a, k], [j, u]]))
+    gd = {"nodes": sorted(nm) if rng.random() < 0.5 else nm, "di": di, "bi": [[u, v]] + ([[k, a]] if rng.random() < 0.2 else []),
+          "hostile": "planted-three-relevant-worlds"}
+    val = lambda: rng.random() < 0.5  # noqa: E731
+    out = [[u, [[a, val()]], val()], [k, [[j, val()]], val()]]
+    cond = [[v, [[b, val()]], val()]]
+    if rng.random() < 0.3:
+        out, cond = [out[0]], cond + [out[1]]
+    return gd, out, cond
+
+
 def run_shard(ctx):
     mon_cf.install_idcstar()
     mon_dsep.install()
@@ -72,6 +115,19 @@ def run_shard(ctx):
     for i in range(ctx.share({"quick": 20000, "thorough": 150000}[ctx.tier])):
         n = rng.choice([2, 3, 3, 4, 4, 4] + ([5] if ctx.tier == "thorough" else []))
         gd = gg.random_admg(rng, n)
+        if i % 20 == 13:
+            gd, out, cond = planted_three_relevant_worlds(rng)
+            classes["planted_three_relevant_worlds"] = classes.get("planted_three_relevant_worlds", 0) + 1
+            run_case(ctx, gd, out, cond, "planted_three_relevant_worlds")
+            continue
+        if i % 10 == 7:
+            pl = planted_three_worlds(rng, gg.random_admg(rng, rng.choice([4, 4, 5])))
+            if pl is None:
+                continue
+            gd, out, cond = pl
+            classes["planted_three_worlds"] = classes.get("planted_three_worlds", 0) + 1
+            run_case(ctx, gd, out, cond, "planted_three_worlds")
+            continue
         sp = split_event(rng, gd)
         if sp is None:
             continue
